@@ -9,6 +9,15 @@ class Check(RuntimeCheck):
     design_ref = 'DESIGN.md §4.3, §5 C07'
     theorems = ['C07_unmentioned', 'C07_unmatched', 'C07_never_fabricates', 'C07_continuations', 'respond_ret_mem']
 
+    def extra(self, rep, tier, seed):
+        # which continuation arms (#[unimock] output) a fall-through can reach: compared with the code-generation model for the whole shape family, plus the compiled fall-through cases
+        from .macro_common import MacroCheck
+        class Generated(MacroCheck):
+            prop = 'C07'
+            case_prefixes = ('ref.default', 'mut.default', 'own.default', 'own.m2+default', 'pin.m2+default', 'ref.unmock', 'async.unmock')
+            facts_of_interest = r'(arm Unmock|arm CallDefaultImpl|call unmock|call default|arm any|default_impl|partial)'
+        Generated().explore_into(rep, tier, seed, ir=True, merge=True)
+
     def rule(self):
         return ("exhaustive decision table: {strict, partial} x every universe method (default body / unmock fn / both / "
                 "neither) x {unmentioned, mentioned-unmatched, matched} x {unordered, ordered} x argument (incl. arguments "
